@@ -11,8 +11,9 @@ git -C /repo worktree add -q --detach "$wt" HEAD || exit 2
 cleanup() { git -C /repo worktree remove --force "$wt" 2>/dev/null; rm -rf "$wt"; }
 trap cleanup EXIT
 cd "$wt"
+mkdir -p "$wt/seed_x"; cp "$seed"/demo.py "$wt/seed_x/"; demo="$wt/seed_x/demo.py"   # demos locate the repo relative to themselves
 build_native() { /venv/bin/python build_fjcore.py >/dev/null 2>&1; rm -rf build; }
-run_demo() { if grep -q "def test_" "$seed/demo.py" 2>/dev/null; then PYTHONPATH="$wt" timeout 600 /venv/bin/python -m pytest -q -p no:cacheprovider "$seed/demo.py" >/dev/null 2>&1; else PYTHONPATH="$wt" timeout 600 /venv/bin/python "$seed/demo.py" >/dev/null 2>&1; fi; }
+run_demo() { if grep -q "def test_" "$demo" 2>/dev/null; then PYTHONPATH="$wt" timeout 600 /venv/bin/python -m pytest -q -p no:cacheprovider "$demo" >/dev/null 2>&1; else PYTHONPATH="$wt" timeout 600 /venv/bin/python "$demo" >/dev/null 2>&1; fi; }
 build_native
 run_demo; d0=$?
 git apply "$seed/patch.diff" || { echo "SEED patch does not apply"; exit 2; }
@@ -21,7 +22,7 @@ timeout 1800 /venv/bin/python -m pytest -q -p no:cacheprovider --timeout=900 -x 
 run_demo; d1=$?
 echo "SEED demo_unpatched_rc=$d0 tests_patched_rc=$t1 demo_patched_rc=$d1"
 tail -n 2 /var/tmp/seedrun.$$.tests; rm -f /var/tmp/seedrun.$$.tests
-rm -f flipjump/interpreter/_fjcore*.so
+rm -f flipjump/interpreter/_fjcore*.so; rm -rf "$wt/seed_x"
 cd /verif
 FJVERIF_REPO="$wt" ./check "$prop" "$@" > /var/tmp/seedrun.$$.check 2>&1; c=$?
 grep -E "^VIOLATION|^KNOWN-FINDING|^\[$prop\]|^# " /var/tmp/seedrun.$$.check | cut -c1-300 | head -12
